@@ -291,14 +291,22 @@ func contentDb(proof [][]byte, m *memo) mapReader {
 // Coq printers
 func bl(b []byte) string {
 	var sb strings.Builder
-	sb.WriteByte('[')
-	for i, c := range b {
+	fmt.Fprintf(&sb, "(B %d [", len(b))
+	for i := 0; i < len(b); i += 7 {
 		if i > 0 {
 			sb.WriteByte(';')
 		}
-		fmt.Fprintf(&sb, "%d", c)
+		j := i + 7
+		if j > len(b) {
+			j = len(b)
+		}
+		var w uint64
+		for _, c := range b[i:j] {
+			w = w<<8 | uint64(c)
+		}
+		fmt.Fprintf(&sb, "%d", w)
 	}
-	sb.WriteByte(']')
+	sb.WriteString("])")
 	return sb.String()
 }
 func bll(bs [][]byte) string {
@@ -1039,7 +1047,7 @@ func gen(seed uint64, n int, outDir, corpusDir string) {
 		}
 	}
 	var sb strings.Builder
-	sb.WriteString("From VF.C13 Require Import Model.\nLocal Open Scope N_scope.\nDefinition cases : list case := [\n")
+	sb.WriteString("From VF.C13 Require Import Model.\nFrom Coq Require Import Uint63.\nLocal Open Scope uint63_scope.\nDefinition cases : list case := [\n")
 	for i, c := range cases {
 		if i > 0 {
 			sb.WriteString(";\n")
